@@ -28,9 +28,7 @@ The resource id of entry `e` of type `t` (1-based) in package `p` is  p.id << 24
     encode_arsc(model, **layout_options) -> bytes
 
 Layout options (all optional; they change the bytes, never the meaning of the table)
-    global_utf8 / type_utf8 / key_utf8 : bool   encoding of the three kinds of string pools (default
-                                              global UTF-8, type/key UTF-16 as aapt2 writes them? no:
-                                              default False/False/False = UTF-16)
+    global_utf8 / type_utf8 / key_utf8 : bool   UTF-8 instead of UTF-16 for the global / type-name / key-name pool (default False)
     config_size     : one of 28, 32, 36, 48, 52, 56, 64            size of every ResTable_config (default 64)
     typespec        : bool     emit a ResTable_typeSpec before the type chunks of each type (default True)
     spec_per_chunk  : bool     repeat the typeSpec before every type chunk (default False)
